@@ -49,6 +49,20 @@ META = {
     "design_ref": "DESIGN.md section 3, C43",
 }
 
+
+def _preload():
+    """Import the ioflo modules under test once in the parent process (vp.cli imports this module after
+    env.use_repo()), so that the forked shard workers do not each recompile ioflo (~1 s per shard)."""
+    try:
+        from vp.core import env
+        env.use_repo()
+        import ioflo.aid.navigating
+    except Exception:       # the lazy imports inside the check functions report the real error
+        pass
+
+
+_preload()
+
 TOL = Fraction(1, 10 ** 9)
 WRAP_ABS = [Fraction(0), Fraction(1), Fraction(90), Fraction(180), Fraction(360), Fraction(1, 3)]
 WRAPS = [None] + sorted(set([w for w in WRAP_ABS] + [-w for w in WRAP_ABS]))   # None = default argument
